@@ -77,22 +77,25 @@ def assemble2 (b1 b2 : Basis K) (nextra : Nat) (blk : Nat → Nat → Tab (Tab4 
   Array.ofFn (n := b1.total * nc * nextra) fun idx =>
     entry2 b1 b2 pb (idx.val / (nc * nextra)) (idx.val / nextra % nc) (idx.val % nextra)
 
-/-- one-index array (`BaseOneIndex`): rows = basis functions, `nextra` columns.
-`blk s` gives `[m][a][e]`. -/
-def assemble1 (b : Basis K) (nextra : Nat) (blk : Nat → Tab3 K) : Array K := Id.run do
-  let mut out : Array K := Array.replicate (b.total * nextra) (Num.nat 0)
-  let mut roff := 0
-  for hi : i in [0:b.size] do
-    let s := b[i]
+/-- normalised and transformed one-index blocks of all shells: `[i]` ↦ `[m][f][e]` -/
+def oneBlocks (b : Basis K) (nextra : Nat) (blk : Nat → Tab3 K) : Tab (Tab3 K) :=
+  tab b.size fun i =>
+    let s := b.getD i default
     let ws := s.weights
     let raw := blk i
-    for m in [0:s.nseg] do
-      for f in [0:s.nfun] do
-        for e in [0:nextra] do
-          let v := if s.sph then sumN s.ncart fun a => ws.get3 m f a * raw.get3 m a e
-                   else ws.get3 m f f * raw.get3 m f e
-          out := out.set! ((roff + m * s.nfun + f) * nextra + e) v
-    roff := roff + s.size
-  return out
+    tab3 s.nseg s.nfun nextra fun m f e =>
+      if s.sph then sumN s.ncart fun a => ws.get3 m f a * raw.get3 m a e
+      else ws.get3 m f f * raw.get3 m f e
+
+/-- entry `(r, e)` of a one-index array: row `r` is function `f` of segment `m` of shell `i` -/
+def entry1 (b : Basis K) (ob : Tab (Tab3 K)) (r e : Nat) : K :=
+  let lr := b.locate r
+  (ob.get lr.1).get3 lr.2.1 lr.2.2 e
+
+/-- one-index array (`BaseOneIndex`): rows = basis functions, `nextra` columns.
+`blk s` gives `[m][a][e]`. -/
+def assemble1 (b : Basis K) (nextra : Nat) (blk : Nat → Tab3 K) : Array K :=
+  let ob := oneBlocks b nextra blk
+  Array.ofFn (n := b.total * nextra) fun idx => entry1 b ob (idx.val / nextra) (idx.val % nextra)
 
 end GB
